@@ -65,7 +65,8 @@ class TState:
 
 
 class Sched:
-    def __init__(self, prefix=(), horizon=4000, int_pred=None, bc=False, trace=False):
+    def __init__(self, prefix=(), horizon=4000, int_pred=None, bc=False, trace=False, startfail=False):
+        self.startfail = startfail
         self.prefix = list(prefix)
         self.horizon = horizon
         self.int_pred = int_pred
@@ -584,6 +585,10 @@ class Thread:
             raise Abort()
         if self._ts is not None:
             raise RuntimeError("threads can only be started once")
+        if getattr(s, "startfail", False) and s.choose_value(2, "thread.start.refused", "startfail") == 1:
+            # environment fault: the interpreter refuses to start another thread
+            s.log("THREAD_START_REFUSED")
+            raise RuntimeError("can't start new thread")
         self._ts = s.spawn(self.run, name=self.name, sym=self.sym)
         s.log("THREAD_START", self._ts.name)
         r = s.point("thread.start")
@@ -763,7 +768,8 @@ class Execution:
 
 def run_one(harness, prefix, trace=False):
     """Run harness once following `prefix`, default choices afterwards."""
-    s = Sched(prefix, horizon=harness.horizon, int_pred=harness.int_pred, bc=harness.bc, trace=trace)
+    s = Sched(prefix, horizon=harness.horizon, int_pred=harness.int_pred, bc=harness.bc, trace=trace,
+              startfail=getattr(harness, "startfail", False))
     CUR[0] = s
     x = Execution()
     try:
